@@ -24,7 +24,7 @@ T_QUICK, T_THOROUGH = 70, 1500
 FLOORS = {"hybrid_roundtrips": 4000, "json_roundtrips": 4000, "json_text_roundtrips": 1500,
           "fields_compared": 40000, "renamed_fields_compared": 3000, "nested_renamed_compared": 800,
           "fields_at_default": 4000, "elision_asserted": 2000, "omitted_field_took_default": 1500,
-          "empty_dynamic_arrays": 300, "ref_fields_nonnull": 300, "isolation_writes": 2000,
+          "empty_dynamic_arrays": 300, "ref_fields_nonnull": 300, "isolation_writes": 2000, "subclass_roundtrips": 800,
           "seen:json:st": 500, "seen:json:ar": 500, "seen:json:str": 300}
 RULE = ("A: generated hybrid class families (1-3 levels; scalars, strings, numeric arrays static/dynamic 1-2 D, nested "
         "hybrids, references to hybrids, renamed fields, default / default_factory) with values deliberately equal to "
@@ -226,6 +226,8 @@ def run_hybrid(w, rng):
             w.count("omitted_field_took_default", len(drop))
             for p, kind, detail in compare_h(outer, m3, new3, resolve)[:2]:
                 viol(f"omitted-field-not-default:{kind}", f"{p}: {detail} (omitted {[f[1] for f in drop]})")
+        if rng.random() < 0.35 and not seen:
+            _subclass_roundtrip(w, rng, outer, vg, env, viol, resolve)
         w.case(["hy", [spec_sig(s) for s in specs], sorted(marks), dest],
                sample=dict(info, dict_keys=sorted(d)) if rng.random() < 0.003 else None)
     finally:
@@ -233,6 +235,48 @@ def run_hybrid(w, rng):
         if env2 is not None:
             env2.close()
         flush_contracts(w, info)
+
+
+def _subclass_roundtrip(w, rng, parent, vg, env, viol, resolve):
+    """A subclass that redeclares the fields with other defaults, used AFTER the parent class has produced a
+    dictionary: values equal to the parent's default (not the subclass's own) must survive the round trip, values
+    equal to the subclass's own default are the ones that may be omitted."""
+    from xv.hybridgen import make_subclass
+    sub = make_subclass(rng, parent)
+    if sub is None:
+        return
+    pd = {f[0]: implicit_default(f[2], f[3], f[4]) for f in parent["fields"]}
+    mv = {}
+    for xn, pn, kind, s_, dflt in sub["fields"]:
+        own = implicit_default(kind, s_, dflt)
+        if kind == "sc":
+            r = rng.random()
+            mv[xn] = pd[xn] if r < 0.45 else (own if r < 0.7 else vg.scalar(s_))
+        elif kind == "str":
+            mv[xn] = vg.string()
+        elif kind == "arr":
+            mv[xn] = vg.array(s_[0], s_[1])
+        elif kind == "nested":
+            mv[xn] = vg.value(s_)
+        else:
+            mv[xn] = None
+    try:
+        obj = sub["cls"](**to_kwargs(sub, mv, rng, _buffer=env.buf))
+        d = obj.to_dict()
+        new = sub["cls"].from_dict(d)
+    except Exception as e:
+        viol(f"subclass-roundtrip-{exc_kind(e)}", tb(e))
+        return
+    w.count("subclass_roundtrips")
+    for p, kind, detail in compare_h(sub, mv, new, resolve)[:2]:
+        viol(f"subclass-rebuilt-differs:{kind}", f"{p}: {detail} (dictionary keys {sorted(d)})")
+    for xn, pn, kind, s_, dflt in sub["fields"]:
+        if kind == "sc" and pn == xn:
+            own = implicit_default(kind, s_, dflt)
+            if mv[xn] == own and pn in d:
+                viol("subclass-default-valued-field-not-omitted|sc", f"{pn} = {d[pn]!r}")
+            if mv[xn] != own and pn not in d:
+                viol("subclass-non-default-field-omitted|sc", f"{pn}: value {mv[xn]!r}, own default {own!r}, parent default {pd[xn]!r}")
 
 
 def count_fields(spec, mv, resolve, depth):
